@@ -7,7 +7,7 @@ CONSTANTS
   Version = 21
   Deviations = {}
   MaxLevel = 4
-  Acts = {"Populate", "AddHole", "AddDepthData", "AddIntervalData", "SetValues", "Rename", "RemoveDataViaParent", "RemoveDataViaWorkspace", "RemoveHoleViaParent", "RemoveHoleViaWorkspace", "RemovePropertyGroup", "AddValuesToTable", "Reopen", "CopyGroup", "Protect"}
+  Acts = {"Populate", "AddHole", "AddDepthData", "AddIntervalData", "SetValues", "Rename", "RemoveDataViaParent", "RemoveDataViaWorkspace", "RemoveHoleViaParent", "RemoveHoleViaWorkspace", "RemovePropertyGroup", "AddValuesToTable", "Reopen", "CopyGroup", "Protect", "SaveHoleAgain", "SetPublic"}
   TrackSession = FALSE
   Kind = "float"
 VIEW vw
